@@ -21,6 +21,7 @@ ASSUMPTIONS = ["strict reader mc/rp66.py", "reference model mc/model.py", "refer
                "identity names, no window, one chunk"]
 
 FRAMES = {
+    'D': [('P', 'float64', None), ('Q', 'float64', None)],       # two channels of one type (mapping may swap them)
     'A': [('CH-A', 'float64', None)],
     'B': [('DEPTH', 'float64', None), ('AMP', 'int16', 2)],
     'C': [('U8', 'uint8', None), ('F32', 'float32', 3), ('I32', 'int32', None)],
@@ -41,11 +42,15 @@ def cases(shard, tier):
     R_ = shard['rows']
     wins = [(f, t) for f in range(R_) for t in range(f + 1, R_ + 1)] + [(f, None) for f in range(R_)]
     chunks = sorted({None, 1, 2, R_}, key=lambda x: (x is not None, x))
-    for (f, t), chunk, mapping, perm, extra, bo in itertools.product(wins, chunks, ['identity', 'renamed'],
+    maps = ['identity', 'renamed'] + (['swapped'] if shard['frame'] == 'D' else [])
+    for (f, t), chunk, mapping, perm, extra, bo in itertools.product(wins, chunks, maps,
                                                                      ['same', 'reversed'], [False, True], ['<', '>']):
         if shard['src'] == 'inline' and (mapping != 'identity' or perm != 'same' or extra):
             continue
         yield dict(shard, frm=f, to=t, chunk=chunk, mapping=mapping, perm=perm, extra=extra, bo=bo)
+        if (f or t is not None) and chunk in (None, 2) and not extra and perm == 'same' and bo == '<':
+            # the same objects were written before with the full window
+            yield dict(shard, frm=f, to=t, chunk=chunk, mapping=mapping, perm=perm, extra=extra, bo=bo, earlier=True)
 
 
 def _pats(frame, rows):
@@ -66,7 +71,11 @@ def make_spec(c, reference=False):
     frm, to = c['frm'], c['to']
     ops = [S.op_lf(), S.op_origin()]
     refs, data = [], []
-    for i, (name, dt, w, pat) in enumerate(_pats(c['frame'], rows)):
+    pats = _pats(c['frame'], rows)
+    if reference and c.get('mapping') == 'swapped':
+        # channel P is fed with what the source calls Q and vice versa: the reference gets the arrays crosswise
+        pats = [(pats[0][0],) + pats[1][1:], (pats[1][0],) + pats[0][1:]]
+    for i, (name, dt, w, pat) in enumerate(pats):
         per = w or 1
         if reference:
             hi = rows if to is None else to
@@ -77,6 +86,9 @@ def make_spec(c, reference=False):
             arr = S.arr_spec(dt, [rows] if w is None else [rows, w], pat, bo=c.get('bo', '<'))
             kw = {}
             ds = name
+            if c['mapping'] == 'swapped':
+                ds = {'P': 'Q', 'Q': 'P'}[name]          # channel P reads data set Q and vice versa
+                kw['dataset_name'] = ds
             if c['mapping'] == 'renamed':
                 ds = ('grp/sub/ds_' if c['src'] == 'h5' else 'ds_') + name
                 if c['src'] == 'h5' and i % 2:
@@ -84,7 +96,9 @@ def make_spec(c, reference=False):
                 kw['dataset_name'] = ds
             if c['src'] == 'inline':
                 kw['data'] = arr
-            data.append((ds, arr))
+            # the source holds data set <name> with this channel's pattern; with the swapped mapping the channel reads
+            # the OTHER data set (the reference gets the patterns crosswise)
+            data.append((name if c['mapping'] == 'swapped' else ds, arr))
             ops.append(S.op_add('channel', f'C{i}', name, **kw))
         refs.append({'$ref': f'C{i}'})
     fkw = {'index_type': 'BOREHOLE-DEPTH'} if c['frame'] == 'B' else {}
@@ -115,15 +129,37 @@ def make_spec(c, reference=False):
 @functools.lru_cache(maxsize=256)
 def _reference(key):
     c = json.loads(key)
+    c.setdefault('mapping', 'plain')
     res = S.run_spec(make_spec(c, reference=True), fname='ref.dlis')
     return res['data'], res['write']
+
+
+def _write_after_full(sp):
+    import os
+    from mc.engine import scratch_dir
+    b = S.build(sp)
+    res = {'status': b.status, 'failed_at': b.failed_at, 'write': 'skipped', 'data': None}
+    if b.failed_at is not None:
+        return res
+    kw = S.write_kwargs(sp, b)
+    p1 = os.path.join(scratch_dir(), 'c11-first.dlis')
+    p2 = os.path.join(scratch_dir(), 'out.dlis')
+    try:
+        b.df.write(p1, **{k: v for k, v in kw.items() if k not in ('from_idx', 'to_idx')})
+        b.df.write(p2, **kw)
+        res['write'] = 'ok'
+        res['data'] = open(p2, 'rb').read()
+    except Exception as e:  # noqa
+        res['write'] = f"raised:{type(e).__name__}: {e}"
+    return res
 
 
 def run_case(c):
     viol = []
     sp = make_spec(c)
-    res = S.run_spec(sp)
-    refkey = json.dumps({'frame': c['frame'], 'rows': c['rows'], 'frm': c['frm'], 'to': c['to']}, sort_keys=True)
+    res = _write_after_full(sp) if c.get('earlier') else S.run_spec(sp)
+    refkey = json.dumps({'frame': c['frame'], 'rows': c['rows'], 'frm': c['frm'], 'to': c['to'],
+                         'mapping': 'swapped' if c['mapping'] == 'swapped' else 'plain'}, sort_keys=True)
     ref, refst = _reference(refkey)
     # the struct spelling of the model needs dataset names without renaming prefix handled by resolve_data
     if ref is None:
@@ -133,7 +169,8 @@ def run_case(c):
         viol.append((f"C11:valid-rejected:{c['src']}", f"{why} | {c}"))
         return Outcome('raised', viol, True, digest=why[:40])
     if res['data'] != ref:
-        cls = _classify(res['data'], ref, c)
+        cls = _classify(res['data'], ref, c) + (':swapped-mapping' if c['mapping'] == 'swapped' else '') + \
+            (':after-full-write' if c.get('earlier') else '')
         viol.append((f"C11:differs:{c['src']}:{cls}", f"file differs from the inline write of rows "
                                                       f"[{c['frm']},{c['to']}) | {c}"))
     return Outcome(f"ok:{c['src']}:{'window' if (c['frm'] or c['to'] is not None) else 'all'}", viol, True,
